@@ -280,7 +280,11 @@ def _leaf(rng, cfg, kinds=None):
         return ["prefix", rng.choice(tfields), w[:rng.randint(1, 2)]]
     if c == "wildcard":
         w = rng.choice(vocab)
-        pat = rng.choice((w[0] + "*", "*" + w[-1], w[0] + "?" * (len(w) - 1), "*" + w[1:3] + "*"))
+        i = rng.randint(1, len(w))
+        j = rng.randint(0, min(i, len(w) - 1))
+        # (head*tail where head and tail overlap in the word itself: "alf*fa" must not match "alfa")
+        pat = rng.choice((w[0] + "*", "*" + w[-1], w[0] + "?" * (len(w) - 1), "*" + w[1:3] + "*",
+                          w[:i] + "*" + w[j:], w[:i] + "*" + w[j:], w[:2] + "*" + w[-2:]))
         return ["wildcard", rng.choice(tfields), pat]
     if c == "regex":
         w = rng.choice(vocab)
